@@ -52,8 +52,17 @@ def statusAfter (n : Nat) (es : List (Nat × Nat)) (st : Nat → NStatus) (R : N
   fun v => if (setupRetry n es st R).1.cleared v then .none else st v
 
 /-- the reset set of the code: `dict[u] == NodeStatusError || dict[u] == NodeStatusCancel ||
-    dict[u] == NodeStatusRunning` (the last disjunct since fix 5b4cd49, finding F11) -/
+    dict[u] == NodeStatusRunning || dict[u] == NodeStatusNone` (`running` since fix 5b4cd49, finding
+    F11; `none` since fix 58ed5db, finding F45) -/
 def resetSet : NStatus → Bool
+  | .error => true
+  | .cancel => true
+  | .running => true
+  | .none => true
+  | _ => false
+
+/-- the reset set before fix 58ed5db (F45): a step recorded `not started` kept its recorded counters -/
+def resetSetF45 : NStatus → Bool
   | .error => true
   | .cancel => true
   | .running => true
@@ -69,6 +78,6 @@ def resetSetPinned : NStatus → Bool
     scratch (`clearState` zeroes status, retry count and done count), the others keep their record -/
 def initRetry (n : Nat) (es : List (Nat × Nat)) (st : Nat → NStatus) (rc dc : Nat → Nat) (R : NStatus → Bool) : State :=
   let cl := (setupRetry n es st R).1.cleared
-  { nd := fun i => if cl i then {} else { status := st i, retry := rc i, doneCnt := dc i } }
+  { nd := fun i => if i < n then (if cl i then {} else { status := st i, retry := rc i, doneCnt := dc i }) else {} }
 
 end BdModel.Retry
